@@ -246,12 +246,19 @@ Proof.
 Qed.
 
 (* ------------------------------------------------------------------ writePtr: the struct copy *)
+(* what a copying writePtr adds besides keeping the invariant: the first new table entry [h] is the
+   copy - it starts at the old end of its segment (position 0 of a segment that did not exist), and
+   the pointer slot written resolves to exactly [h] afterwards *)
+Definition fresh_target (w w' : world) (q : Z * Z) (h : Ptr) : Prop :=
+  obj_start h = zlen (mem (w_dst w) (p_seg h)) /\
+  exists pads', resolve_ptr (bm_data (w_dst w')) (fst q) (snd q) = (tgt_of h, pads' ++ [obj_reg h]).
+
 Lemma struct_copy f : Q_cs f -> forall w objs pads q src fc w',
   tinv w objs pads -> In q ((0, 0) :: flat_map slots objs) -> view objs src ->
   p_valid src = true -> p_kind src = KStruct -> os_isZero (p_size src) = false ->
   fc || p_member src = true ->
   write_ptr (S f) true w (fst q) (snd q) InDst src fc = Ok w' -> nsegs (w_dst w') < B32 ->
-  exists eo ep, tinv w' (objs ++ eo) (pads ++ ep).
+  exists h eo ep, tinv w' (objs ++ h :: eo) (pads ++ ep) /\ fresh_target w w' q h.
 Proof.
   intros QC w objs pads q src fc w' [H C] Hq Vs Hv Ek EZ Hcp HW Hb. unfold B32 in *.
   pose proof (struct_wf _ _ _ src H Vs Hv Ek) as [Wd Wp].
@@ -296,11 +303,13 @@ Proof.
   assert (Hq2 : In q ((0, 0) :: flat_map slots ((objs ++ [core dstp]) ++ eo))) by (apply slots_app, slots_app; exact Hq).
   assert (Hd2 : In (core dstp) ((objs ++ [core dstp]) ++ eo)).
   { apply in_or_app. left. apply in_or_app. right. left. reflexivity. }
-  destruct (hinv_place (w_dst w2) ((objs ++ [core dstp]) ++ eo) (pads ++ ep) w2 q (core dstp) raw w') as [pads' H'];
+  destruct (hinv_place_full (w_dst w2) ((objs ++ [core dstp]) ++ eo) (pads ++ ep) w2 q (core dstp) raw w') as (pads' & H' & Rs' & _);
     auto; try lia.
   all: try (unfold core, dstp; cbn [p_size]; intros _; unfold os_isZero, csz in *; cbn [DataSize PointerCount]; fold DS pc in EZ; lia).
   all: try (unfold raw_of, core, dstp; cbn [p_kind p_size]; exact ER).
-  exists ([core dstp] ++ eo), (ep ++ pads'). rewrite !app_assoc. split; [exact H'|exact C2].
+  exists (core dstp), eo, (ep ++ pads'). split.
+  - change (core dstp :: eo) with ([core dstp] ++ eo). rewrite !app_assoc. split; [exact H'|exact C2].
+  - split; [|exists pads'; exact Rs']. unfold obj_start, core, dstp. cbn [p_comp p_off p_seg]. exact AD.
 Qed.
 
 (* ------------------------------------------------------------------ writePtr: the list copy *)
@@ -361,7 +370,7 @@ Lemma list_copy f : Q_cs f -> forall w objs pads q src w',
   tinv w objs pads -> In q ((0, 0) :: flat_map slots objs) ->
   p_valid src = true -> p_kind src = KList -> In (core src) objs ->
   write_ptr (S f) true w (fst q) (snd q) InDst src true = Ok w' -> nsegs (w_dst w') < B32 ->
-  exists eo ep, tinv w' (objs ++ eo) (pads ++ ep).
+  exists h eo ep, tinv w' (objs ++ h :: eo) (pads ++ ep) /\ fresh_target w w' q h.
 Proof.
   intros QC w objs pads q src w' [H C] Hq Hv Ek Hin HW Hb. unfold B32 in *.
   destruct (core_facts src) as (C1 & C2 & C3 & C4 & C5 & C6 & C7).
@@ -396,7 +405,7 @@ Proof.
              (fun wa i => do de <- list_struct true (dl doff) i; do se <- list_struct true src i;
                           copy_struct_gen true f true wa de InDst se)) = Ok w3 ->
      (do raw <- list_raw (dl doff); place w3 (fst q) (snd q) nsid naddr raw) = Ok w' ->
-     exists eo ep, tinv w' (objs ++ eo) (pads ++ ep)).
+     exists h eo ep, tinv w' (objs ++ h :: eo) (pads ++ ep) /\ fresh_target w w' q h).
   { intros cb w2 doff sz' w3 Ecb dl T2 I2 N02 Lm Hs0 Hrd Hrs Eos Hod Hdo E3 EP. subst cb.
     set (cd := core (dl doff)) in *.
     set (estep := fun (wa : world) (i : Z) => do de <- list_struct true (dl doff) i; do se <- list_struct true src i;
@@ -492,11 +501,14 @@ Proof.
     (* the pointer to the new list *)
     assert (Hq3 : In q ((0, 0) :: flat_map slots ((objs ++ [cd]) ++ eo))) by (apply slots_app, slots_app; exact Hq).
     assert (Hcd3 : In cd ((objs ++ [cd]) ++ eo)) by (apply in_or_app; left; exact Hcd).
-    destruct (hinv_place (w_dst w3) ((objs ++ [cd]) ++ eo) (pads ++ ep) w3 q cd raw w') as [pads' H']; auto; try lia.
+    destruct (hinv_place_full (w_dst w3) ((objs ++ [cd]) ++ eo) (pads ++ ep) w3 q cd raw w') as (pads' & H' & Rs' & _); auto; try lia.
     all: try (unfold cd, core, dl, dl0; cbn [p_kind]; discriminate).
     all: try (unfold raw_of, cd, core, dl, dl0; cbn [p_kind]; exact ER).
     all: try (change (obj_start cd) with (obj_start (dl doff)); rewrite Eos; unfold cd, core, dl, dl0; cbn [p_seg]; exact EP).
-    exists ([cd] ++ eo), (ep ++ pads'). rewrite !app_assoc. split; [exact H'|exact Cc3]. }
+    exists cd, eo, (ep ++ pads'). split.
+    - change (cd :: eo) with ([cd] ++ eo). rewrite !app_assoc. split; [exact H'|exact Cc3].
+    - split; [|exists pads'; exact Rs']. change (obj_start cd) with (obj_start (dl doff)). rewrite Eos.
+      unfold cd, core, dl, dl0. cbn [p_seg]. exact AD. }
   assert (PS : sz <= padToWord sz <= sz + 7) by (unfold padToWord, u32; lia).
   assert (ShD : forall doff, shape_ok (core (dl0 (p_comp src) doff))).
   { intros doff. unfold shape_ok in *. unfold core, dl0. cbn [p_kind p_len p_comp p_bit p_size]. rewrite Ek in Sh.
@@ -570,14 +582,15 @@ Proof.
     destruct fc; [|apply NC; auto].
     destruct (p_kind src) eqn:Ek.
     + destruct (os_isZero (p_size src)) eqn:EZ; [apply NC; auto|].
-      apply (struct_copy f QC w objs pads q src true w'); auto. split; auto.
-    + apply (list_copy f QC w objs pads q src w'); auto. split; auto.
+      destruct (struct_copy f QC w objs pads q src true w') as (h & eo & ep & T & _); auto; [split; auto|]. exists (h :: eo), ep. exact T.
+    + destruct (list_copy f QC w objs pads q src w') as (h & eo & ep & T & _); auto; [split; auto|]. exists (h :: eo), ep. exact T.
     + exfalso. destruct (core_facts src) as (_ & _ & _ & _ & _ & _ & C7).
       destruct (hi_good _ _ _ H _ V) as [_ (Sh & _)]. apply (proj1 C7) in Sh. unfold shape_ok in Sh. rewrite Ek in Sh. exact Sh.
   - (* a list member *)
     destruct MA as (_ & _ & _ & _ & _ & _ & _ & Ek & Hm).
     destruct (os_isZero (p_size src)) eqn:EZ; [apply NC; auto|].
-    apply (struct_copy f QC w objs pads q src fc w'); auto; [split; auto|]. rewrite Hm. apply Bool.orb_true_r.
+    destruct (struct_copy f QC w objs pads q src fc w') as (h & eo & ep & T & _); auto; [split; auto|rewrite Hm; apply Bool.orb_true_r|].
+    exists (h :: eo), ep. exact T.
   - apply NC. right. right. left. split; [exact Ek|]. rewrite Esz. reflexivity.
   - apply NC. right. right. right. auto.
 Qed.
@@ -592,4 +605,33 @@ Proof.
     + intros w objs pads q src fc w' _ _ _ HW. discriminate HW.
     + intros w objs pads dst src w' _ _ _ _ _ HW. discriminate HW.
   - split; [apply wp_step; exact IC|apply cs_step; exact IW].
+Qed.
+
+(* [forced_copy_fresh]: what a COPYING writePtr inside one message does, at every level of the
+   recursion.  Whenever writePtr copies - forceCopy (every pointer copied by copyStruct), or the
+   source is a list member - and the source is a non-empty struct or a list, the tables grow by
+   at least one entry [h], the copy: it starts at the old end of its segment (so it is none of the
+   older objects, the source included: the invariant for [objs ++ h :: eo] makes it disjoint from
+   all of them) and the slot written resolves to exactly [h].  Since copyStruct writes every
+   pointer of the copy through writePtr with forceCopy, the same holds for every pointer slot
+   below: no slot of a copy designates an object that existed before the call. *)
+Theorem forced_copy_fresh f w objs pads q src fc w' :
+  tinv w objs pads -> In q ((0, 0) :: flat_map slots objs) -> view objs src ->
+  p_valid src = true -> p_kind src <> KIface -> (p_kind src = KStruct -> os_isZero (p_size src) = false) ->
+  fc || p_member src = true ->
+  write_ptr (S f) true w (fst q) (snd q) InDst src fc = Ok w' -> nsegs (w_dst w') < B32 ->
+  exists h eo ep, tinv w' (objs ++ h :: eo) (pads ++ ep) /\ fresh_target w w' q h.
+Proof.
+  intros [H C] Hq Vs Hv Hni Hnz Hcp HW Hb. destruct (copy_all f) as [_ QC].
+  pose proof Vs as Vs0.
+  destruct Vs as [V|[[M V]|[(hl & i & Hhl & MA)|[(Ek & Esz & _)|(Ek & Hl & _)]]]]; [congruence| | | |].
+  - rewrite M in Hcp. rewrite Bool.orb_false_r in Hcp. subst fc.
+    destruct (p_kind src) eqn:Ek.
+    + apply (struct_copy f QC w objs pads q src true w'); auto. split; auto.
+    + apply (list_copy f QC w objs pads q src w'); auto. split; auto.
+    + congruence.
+  - destruct MA as (_ & _ & _ & _ & _ & _ & _ & Ek & Hm).
+    apply (struct_copy f QC w objs pads q src fc w'); auto. split; auto.
+  - exfalso. specialize (Hnz Ek). rewrite Esz in Hnz. discriminate.
+  - congruence.
 Qed.
